@@ -27,12 +27,71 @@ static const double G_REC = 3 * TOL + 2 * GRID;  // guard band of the PATH-recor
 // ======================================================================= (a) bookkeeping BFS
 enum Kind {
     K_HSCALAR, K_HARRAY, K_VSCALAR, K_VARRAY, K_SEGPT, K_SEGARR, K_CUBIC, K_CUBICS, K_QUAD, K_QUADS_PT, K_QUADS_ARR, K_BEZIER,
-    K_INTERP, K_INTERP_CYCLE, K_PARAM, K_ARC, K_TURN, K_COMMANDS, K_TOPOLY, K_COPY, NKINDS
+    K_INTERP, K_INTERP_CYCLE, K_PARAM, K_ARC, K_TURN, K_COMMANDS, K_TOPOLY, K_COPY,
+    K_CMD2, K_CMDP_0U, K_CMDP_0M, K_CMDP_1U, K_CMDP_1M, K_CMDP_2U, K_CMDP_2M, NKINDS
 };
 static const char* const KIND_NAME[NKINDS] = {"horizontal(x)", "horizontal([x,x])", "vertical(y)", "vertical([y,y])", "segment(p)", "segment([p,p])",
                                               "cubic(3)", "cubic_smooth(2)", "quadratic(2)", "quadratic_smooth(p)", "quadratic_smooth([p,p])", "bezier(3)",
                                               "interpolation(2)", "interpolation(2,cycle)", "parametric(quarter circle)", "arc(1,0,pi/2)", "turn(1,pi/2)",
-                                              "commands(l 1 0 a 1 1.57)", "to_polygons", "copy_from"};
+                                              "commands(l 1 0 a 1 1.57)", "to_polygons", "copy_from",
+                                              "commands(H 3 v 1 q 1 1 2 0 t 1 1)", "commands(X) [stops at item 0: unknown letter]", "commands(l 1) [stops at item 0: argument missing]",
+                                              "commands(l 1 0 X) [stops after 1 instruction: unknown letter]", "commands(l 1 0 a 1) [stops after 1 instruction: argument missing]",
+                                              "commands(l 1 0 a 1 1.57 X 5) [stops after 2 instructions: unknown letter]", "commands(l 1 0 a 1 1.57 q 1 1 2) [stops after 2 instructions: argument missing]"};
+// command lists as text: letters are instructions, numbers are arguments
+static const char* cmd_text(int kind) {
+    switch (kind) {
+        case K_COMMANDS: return "l 1 0 a 1 1.57";
+        case K_CMD2: return "H 3 v 1 q 1 1 2 0 t 1 1";
+        case K_CMDP_0U: return "X";
+        case K_CMDP_0M: return "l 1";
+        case K_CMDP_1U: return "l 1 0 X";
+        case K_CMDP_1M: return "l 1 0 a 1";
+        case K_CMDP_2U: return "l 1 0 a 1 1.57 X 5";
+        case K_CMDP_2M: return "l 1 0 a 1 1.57 q 1 1 2";
+    }
+    return NULL;
+}
+struct CmdList {
+    std::vector<CurveInstruction> items;
+    uint64_t expect_return = 0;   // by the documented grammar (curve.hpp): index of the first item that cannot be parsed, or count
+    int valid_instructions = 0;
+};
+// the harness's own reading of the documented instruction table
+static int cmd_nargs(char c) {
+    switch (c) {
+        case 'h': case 'H': case 'v': case 'V': return 1;
+        case 'l': case 'L': case 't': case 'T': case 'a': return 2;
+        case 'A': return 3;
+        case 's': case 'S': case 'q': case 'Q': return 4;
+        case 'E': return 5;
+        case 'c': case 'C': return 6;
+    }
+    return -1;
+}
+static CmdList parse_cmd_text(const char* txt) {
+    CmdList cl;
+    std::vector<bool> is_cmd;
+    std::vector<char> letters;
+    const char* p = txt;
+    while (*p) {
+        while (*p == ' ') p++;
+        if (!*p) break;
+        CurveInstruction ci;
+        memset(&ci, 0, sizeof ci);
+        if ((*p >= 'a' && *p <= 'z') || (*p >= 'A' && *p <= 'Z')) { ci.command = *p; is_cmd.push_back(true); letters.push_back(*p); p++; }
+        else { char* e; ci.number = strtod(p, &e); is_cmd.push_back(false); letters.push_back(0); p = e; }
+        cl.items.push_back(ci);
+    }
+    size_t i = 0, n = cl.items.size();
+    while (i < n) {
+        int na = is_cmd[i] ? cmd_nargs(letters[i]) : -1;
+        if (na < 0 || n - i - 1 < (size_t)na) break;
+        i += 1 + na;
+        cl.valid_instructions++;
+    }
+    cl.expect_return = i;
+    return cl;
+}
 static bool kind_has_rel(int k) { return k <= K_PARAM; }
 static bool kind_has_wo(int k) { return k <= K_TURN; }
 static const char* const MODE_NAME[3] = {"NULL", "const", "taper"};
@@ -67,6 +126,7 @@ struct BookSys {
         } else {
             // small: every kind once with (taper,taper) [relative where it applies] and once with (NULL,const) [absolute]
             for (int k = 0; k < NKINDS; k++) {
+                if (k == K_CMDP_0M || k == K_CMDP_2U || k == K_CMDP_2M) continue;  // kept for the larger alphabets
                 if (!kind_has_wo(k)) { ops.push_back({k, 0, 0, 0}); continue; }
                 ops.push_back({k, kind_has_rel(k) ? 1 : 0, 2, 2});
                 ops.push_back({k, 0, 0, 1});
@@ -191,6 +251,7 @@ struct BookSys {
             return true;
         }
         uint64_t n0 = fp.spine.point_array.count;
+        int cmd_valid = -1;  // command lists: number of leading instructions that can be parsed
         double wv[3], ov[3];
         Vec2 prev[3], req[3];
         for (int e = 0; e < nelem; e++) {
@@ -236,11 +297,11 @@ struct BookSys {
             case K_PARAM: fp.parametric(quarter_circle, NULL, w, of, rel); break;
             case K_ARC: fp.arc(1, 1, 0, 0.5 * M_PI, 0, w, of); break;
             case K_TURN: fp.turn(1, 0.5 * M_PI, w, of); break;
-            case K_COMMANDS: {
-                CurveInstruction ci[6];
-                ci[0].command = 'l'; ci[1].number = 1; ci[2].number = 0; ci[3].command = 'a'; ci[4].number = 1; ci[5].number = 1.57;
-                uint64_t r = fp.commands(ci, 6);
-                if (check && r != 6) { fail(o, hist, opi, "commands-return", fmt("commands processed %llu of 6 items", (unsigned long long)r)); return true; }
+            default: {
+                CmdList cl = parse_cmd_text(cmd_text(op.kind));
+                uint64_t r = fp.commands(cl.items.data(), cl.items.size());
+                cmd_valid = cl.valid_instructions;
+                if (check && r != cl.expect_return) { fail(o, hist, opi, std::string("commands-return:") + KIND_NAME[op.kind], fmt("commands returned %llu, the documented grammar stops at item %llu of %zu", (unsigned long long)r, (unsigned long long)cl.expect_return, cl.items.size())); return true; }
             } break;
         }
         uint64_t n1 = fp.spine.point_array.count;
@@ -253,7 +314,12 @@ struct BookSys {
             }
         }
         if (!check) return true;
+        if (added == 0 && cmd_valid == 0) {  // list stops at its first item: nothing may change
+            if (compare(o, hist, opi, n0, true)) { R->count("cases"); R->count("book_commands_stopped_at_first_item"); }
+            return true;
+        }
         if (added == 0) { fail(o, hist, opi, "no-point-added", "construction call added no spine point"); return true; }
+        if (cmd_valid > 0 && op.kind >= K_CMDP_0U) { R->count("book_commands_stopped_early_after_valid_instructions"); R->count("nontrivial"); }
         for (uint64_t j = n0; j < n1; j++)
             if (!std::isfinite(fp.spine.point_array[j].x) || !std::isfinite(fp.spine.point_array[j].y)) {
                 // a NaN spine point makes every outline meaningless and lets a following turn()/arc() write out of
@@ -301,7 +367,13 @@ static std::vector<c07::EndVar> end_variants(double hw0, double hwl) {
     return v;
 }
 
-static FlexPath* make_path(const std::vector<V>& sp, int wcfg, int ocfg, int bend, int join, int end, bool simple) {
+// How the spine is appended.  mode 0: init + segment(array) [direct calls].  mode 1: init + one complete command list
+// (V/H for axis-parallel steps, else alternately absolute L and relative l).  mode 2: a command list that stops early after
+// k valid instructions (variant 0: unknown letter, variant 1: last instruction lacks its final argument); the path then has
+// the first k+1 points.  mode 3: as mode 2, then segment(array of the remaining points) with a width change to 1.
+struct Build { int mode = 0, k = 0, variant = 0; };
+static bool g_cmd_return_bad = false;  // set by make_path when commands() did not return the documented item index
+static FlexPath* make_path(const std::vector<V>& sp, int wcfg, int ocfg, int bend, int join, int end, bool simple, const Build& bd = Build()) {
     int nel = group_nel(ocfg);
     int n = (int)sp.size();
     FlexPath* fp = (FlexPath*)allocate_clear(sizeof(FlexPath));
@@ -319,7 +391,33 @@ static FlexPath* make_path(const std::vector<V>& sp, int wcfg, int ocfg, int ben
     Array<Vec2> pa = {};
     pa.items = rest.data();
     pa.count = rest.size();
-    fp->segment(pa, wcfg == 2 ? wend : NULL, NULL, false);
+    if (bd.mode == 0) fp->segment(pa, wcfg == 2 ? wend : NULL, NULL, false);
+    else {
+        int k = bd.mode == 1 ? n - 1 : bd.k;
+        std::vector<CurveInstruction> ci;
+        auto cmd = [&](char c) { CurveInstruction x; memset(&x, 0, sizeof x); x.command = c; ci.push_back(x); };
+        auto num = [&](double v) { CurveInstruction x; memset(&x, 0, sizeof x); x.number = v; ci.push_back(x); };
+        for (int i = 1; i <= k; i++) {
+            double dx = sp[i].x - sp[i - 1].x, dy = sp[i].y - sp[i - 1].y;
+            if (dx == 0) { cmd('V'); num(sp[i].y); }
+            else if (dy == 0) { cmd('h'); num(dx); }
+            else if (i & 1) { cmd('L'); num(sp[i].x); num(sp[i].y); }
+            else { cmd('l'); num(dx); num(dy); }
+        }
+        uint64_t expect = ci.size();
+        if (bd.mode >= 2) {
+            if (bd.variant == 0) { cmd('X'); num(7); num(9); }
+            else { cmd('L'); num(sp[k].x + 4); }
+        }
+        uint64_t r = fp->commands(ci.data(), ci.size());
+        if (r != expect) g_cmd_return_bad = true;
+        if (bd.mode == 3) {
+            Array<Vec2> tail = {};
+            tail.items = rest.data() + k;
+            tail.count = rest.size() - k;
+            fp->segment(tail, wend, NULL, false);
+        }
+    }
     fp->simple_path = simple;
     fp->scale_width = true;
     for (int e = 0; e < nel; e++) {
@@ -403,7 +501,13 @@ static std::string jpts(const std::vector<V>& p) {
     return jarr(a);
 }
 
-struct Member { int wcfg, ocfg, bend, join, end; };
+struct Member { int wcfg, ocfg, bend, join, end; Build bd = Build(); };
+static std::string build_name(const Build& b) {
+    if (b.mode == 0) return "init + segment(array)";
+    if (b.mode == 1) return "init + commands(complete list V/h/L/l)";
+    std::string t = fmt("init + commands(list stopping after %d valid instruction(s): %s)", b.k, b.variant ? "last argument missing" : "unknown letter");
+    return b.mode == 2 ? t : t + " + segment(remaining points, width -> 1)";
+}
 static JFields member_tags(const std::vector<V>& sp, const Member& m, int el, bool bend_fits, bool turn, const std::string& corners = "") {
     double off = group_off(m.ocfg, el);
     return {{"corners", jstr(corners)}, {"join", jstr(c07::JOIN_NAME[m.join])}, {"end", jstr(END_NAME[m.end])}, {"bend", jstr(BEND_NAME[m.bend])}, {"bend_fits", jbool(bend_fits)},
@@ -412,10 +516,10 @@ static JFields member_tags(const std::vector<V>& sp, const Member& m, int el, bo
 }
 static std::string member_json(const std::vector<V>& sp, const Member& m) {
     return jobj({{"spine", jpts(sp)}, {"width", jstr(WIDTH_NAME[m.wcfg])}, {"offsets", jstr(OFF_NAME[m.ocfg])}, {"join", jstr(c07::JOIN_NAME[m.join])},
-                 {"end", jstr(END_NAME[m.end])}, {"bend", jstr(BEND_NAME[m.bend])}, {"tolerance", jnum(TOL)}});
+                 {"end", jstr(END_NAME[m.end])}, {"bend", jstr(BEND_NAME[m.bend])}, {"tolerance", jnum(TOL)}, {"construction", jstr(build_name(m.bd))}});
 }
 static std::string member_replay(const std::vector<V>& sp, const Member& m) {
-    return fmt("sub=outline pts=%s w=%d oc=%d bend=%d join=%d end=%d", pts_str(sp).c_str(), m.wcfg, m.ocfg, m.bend, m.join, m.end);
+    return fmt("sub=outline pts=%s w=%d oc=%d bend=%d join=%d end=%d", pts_str(sp).c_str(), m.wcfg, m.ocfg, m.bend, m.join, m.end) + (m.bd.mode ? fmt(" cm=%d ck=%d cv=%d", m.bd.mode, m.bd.k, m.bd.variant) : std::string());
 }
 
 // ----------------------------------------------------------------------- PATH record decoding (hook)
@@ -480,6 +584,7 @@ struct GroupOpts {
     bool do_b = true, do_c = false, verbose = false, probe = false;
     int only_join = -1, only_end = -1;
     double h = 0.25;
+    Build bd;  // how the members of the group are constructed
 };
 struct ElemOracle {
     c07::ElementInput in;
@@ -503,7 +608,16 @@ static void run_group(const std::vector<V>& sp, int wcfg, int ocfg, int bend, co
     for (int el = 0; el < nel; el++) {
         c07::ElementInput& in = eo[el].in;
         in.spine = sp;
-        for (int i = 0; i < n; i++) { in.hw.push_back(exp_hw(wcfg, i, n)); in.off.push_back(group_off(ocfg, el)); }
+        for (int i = 0; i < n; i++) {
+            double h = exp_hw(wcfg, i, n);
+            if (opt.bd.mode == 1 || opt.bd.mode == 2) h = wcfg == 0 ? 0.5 : 1.0;          // command lists carry no width change
+            if (opt.bd.mode == 3) {                                                       // the taper belongs to the last call only
+                double h0 = wcfg == 0 ? 0.5 : 1.0;
+                h = i <= opt.bd.k ? h0 : h0 + (0.5 - h0) * ((double)(i - opt.bd.k) / (double)(n - 1 - opt.bd.k));
+            }
+            in.hw.push_back(h);
+            in.off.push_back(group_off(ocfg, el));
+        }
         in.bend_r = BEND_R[bend];
         in.ends = end_variants(in.hw[0], in.hw[n - 1]);
         eo[el].o = c07::build(in);
@@ -528,7 +642,7 @@ static void run_group(const std::vector<V>& sp, int wcfg, int ocfg, int bend, co
         for (int j = 0; j < grid.ny; j++)
             for (int i = 0; i < grid.nx; i++) e.cls[(size_t)j * grid.nx + i] = c07::classify(e.o, grid.at(i, j), G, NE);
     }
-    bool nontrivial = (ocfg != 0 && any_turn) || (wcfg == 2 && n >= 3) || any_bend;
+    bool nontrivial = (ocfg != 0 && any_turn) || (wcfg == 2 && n >= 3) || any_bend || opt.bd.mode >= 2;
     if (opt.verbose) {
         fprintf(stderr, "group: spine %s width %s offsets %s bend %s; grid %dx%d h=%.3f; turn=%d bend_fits=%d\n", pts_str(sp).c_str(), WIDTH_NAME[wcfg], OFF_NAME[ocfg], BEND_NAME[bend], grid.nx, grid.ny, grid.h, any_turn, any_bend);
         for (int el = 0; el < nel; el++) {
@@ -542,6 +656,7 @@ static void run_group(const std::vector<V>& sp, int wcfg, int ocfg, int bend, co
             }
         }
     }
+    bool book_failed = false;
     // source coverage kept for the PATH-record comparison: [join 0..1][end][element]
     std::vector<uint8_t> keep[2][NE][2];
     std::vector<uint8_t> cov;
@@ -549,13 +664,20 @@ static void run_group(const std::vector<V>& sp, int wcfg, int ocfg, int bend, co
         if (opt.only_join >= 0 && opt.only_join != j) continue;
         for (int e = 0; e < NE; e++) {
             if (opt.only_end >= 0 && opt.only_end != e) continue;
-            Member m{wcfg, ocfg, bend, j, e};
+            Member m{wcfg, ocfg, bend, j, e, opt.bd};
             if (!(valid >> e & 1)) {
                 R->count(std::string("outline_dropped:") + c07::STATUS_NAME[c07::DROP_SHORT_END]);
                 R->count("outline_members_dropped");
                 continue;
             }
-            FlexPath* fp = make_path(sp, wcfg, ocfg, bend, j, e, false);
+            g_cmd_return_bad = false;
+            FlexPath* fp = make_path(sp, wcfg, ocfg, bend, j, e, false, opt.bd);
+            if (g_cmd_return_bad) {
+                R->violation("outline", "commands-return", member_tags(sp, m, 0, any_bend, any_turn), member_json(sp, m), "FlexPath::commands did not return the index of the first item that cannot be parsed (or the item count for a complete list)", member_replay(sp, m));
+                book_failed = true;
+                free_path(fp);
+                continue;
+            }
             // the construction calls must have produced the requested per-point widths/offsets
             bool book_ok = true;
             for (int el = 0; el < nel && book_ok; el++) {
@@ -565,7 +687,12 @@ static void run_group(const std::vector<V>& sp, int wcfg, int ocfg, int bend, co
                     if (fabs(a[i].x - eo[el].in.hw[i]) > 1e-12 || fabs(a[i].y - eo[el].in.off[i]) > 1e-12) book_ok = false;
             }
             if (!book_ok) {
-                R->violation("outline", "bookkeeping", member_tags(sp, m, 0, any_bend, any_turn), member_json(sp, m), "init + segment(array) did not leave the requested (half width, offset) per spine point", member_replay(sp, m));
+                std::string what = fmt("spine has %llu points, expected %d;", (unsigned long long)fp->spine.point_array.count, n);
+                for (int el = 0; el < nel; el++) what += fmt(" element %d has %llu (half width, offset) entries;", el, (unsigned long long)fp->elements[el].half_width_and_offset.count);
+                JFields bt = member_tags(sp, m, 0, any_bend, any_turn);
+                bt.push_back({"construction_mode", jint(opt.bd.mode)});
+                R->violation("outline", fmt("bookkeeping:mode%d", opt.bd.mode), bt, member_json(sp, m), build_name(opt.bd) + " did not leave the requested (half width, offset) entry per spine point: " + what, member_replay(sp, m));
+                book_failed = true;
                 free_path(fp);
                 continue;
             }
@@ -581,6 +708,24 @@ static void run_group(const std::vector<V>& sp, int wcfg, int ocfg, int bend, co
                 if (wcfg == 2 && n >= 3) R->count("nt_taper_across_corner");
                 if (any_bend) R->count("nt_bend_fits");
                 if (compete) R->count("nt_bends_compete_for_a_segment");
+                if (opt.bd.mode == 1) R->count("cmd_complete_list_members");
+                if (opt.bd.mode == 2) R->count("nt_cmd_list_stopped_early_then_export");
+                if (opt.bd.mode == 3) R->count("nt_cmd_list_stopped_early_then_tapering_section");
+                // a complete command list must give the very outline of the equivalent direct calls
+                std::vector<std::vector<V>> direct;
+                if (opt.bd.mode == 1) {
+                    FlexPath* dp = make_path(sp, wcfg, ocfg, bend, j, e, false);
+                    Array<Polygon*> dres = {};
+                    dp->to_polygons(false, 0, dres);
+                    for (uint64_t k = 0; k < dres.count; k++) {
+                        direct.push_back({});
+                        for (uint64_t t = 0; t < dres[k]->point_array.count; t++) direct.back().push_back(V{dres[k]->point_array[t].x, dres[k]->point_array[t].y});
+                        dres[k]->clear();
+                        free_allocation(dres[k]);
+                    }
+                    dres.clear();
+                    free_path(dp);
+                }
                 for (int el = 0; el < nel; el++) {
                     std::vector<V> poly;
                     bool finite = true;
@@ -603,6 +748,11 @@ static void run_group(const std::vector<V>& sp, int wcfg, int ocfg, int bend, co
                         continue;
                     }
                     if (opt.verbose) fprintf(stderr, " join %s end %s element %d polygon: %s\n", c07::JOIN_NAME[j], END_NAME[e], el, pts_str(poly).c_str());
+                    if (opt.bd.mode == 1) {
+                        bool same = (int)direct.size() == nel && direct[el].size() == poly.size();
+                        for (size_t t = 0; same && t < poly.size(); t++) same = fabs(direct[el][t].x - poly[t].x) <= 1e-9 && fabs(direct[el][t].y - poly[t].y) <= 1e-9;
+                        if (!same) R->violation("outline", fmt("commands-differs-from-direct-calls:%s:%s", c07::JOIN_NAME[j], END_NAME[e]), tags("-"), member_json(sp, m), "polygon of the path built by a complete command list differs from the polygon of the same spine built by init + segment(array)", member_replay(sp, m));
+                    }
                     coverage(poly, grid, cov);
                     int64_t nmc = 0, nmn = 0, ndc = 0;
                     int bad_mc = 0, bad_mn = 0;
@@ -656,7 +806,7 @@ static void run_group(const std::vector<V>& sp, int wcfg, int ocfg, int bend, co
             free_path(fp);
         }
     }
-    if (!opt.do_c) return;
+    if (!opt.do_c || book_failed) return;  // PATH export of a path with inconsistent bookkeeping would read out of bounds
     // ------------------------------------------------------------------- (c) PATH records
     std::vector<int> ends;
     for (int e = 0; e < NE; e++) if ((valid >> e & 1) && (opt.only_end < 0 || opt.only_end == e)) ends.push_back(e);
@@ -665,9 +815,9 @@ static void run_group(const std::vector<V>& sp, int wcfg, int ocfg, int bend, co
         const bool oas = fmt_i == 1;
         const std::string sub = oas ? "path.oas" : "path.gds";
         std::vector<FlexPath*> paths;
-        for (int e : ends) paths.push_back(make_path(sp, wcfg, ocfg, bend, c07::J_NATURAL, e, true));
+        for (int e : ends) paths.push_back(make_path(sp, wcfg, ocfg, bend, c07::J_NATURAL, e, true, opt.bd));
         std::string file = R->scratch + fmt("/p%d.%s", (int)getpid(), oas ? "oas" : "gds");
-        Member m0{wcfg, ocfg, bend, c07::J_NATURAL, ends[0]};
+        Member m0{wcfg, ocfg, bend, c07::J_NATURAL, ends[0], opt.bd};
         auto ctags = [&](const Member& m, int el, const char* what) {
             // few tag combinations on purpose: the engine caps output per (class, tags) and per process
             double off = group_off(m.ocfg, el);
@@ -708,7 +858,7 @@ static void run_group(const std::vector<V>& sp, int wcfg, int ocfg, int bend, co
             }
             for (auto& rg : rgs) {
                 const PathRecord& r0 = recs[rg.idx[0] * nel + el];
-                Member mr{wcfg, ocfg, bend, c07::J_NATURAL, ends[rg.idx[0]]};
+                Member mr{wcfg, ocfg, bend, c07::J_NATURAL, ends[rg.idx[0]], opt.bd};
                 R->count("cases", (int64_t)rg.idx.size());
                 R->count("path_records_checked", (int64_t)rg.idx.size());
                 if (opt.verbose) fprintf(stderr, " %s element %d record (ends %s...): hw %.6f centre %s\n", sub.c_str(), el, END_NAME[ends[rg.idx[0]]], r0.hw, pts_str(r0.pts).c_str());
@@ -769,7 +919,7 @@ static void run_group(const std::vector<V>& sp, int wcfg, int ocfg, int bend, co
                         if (opt.only_join >= 0 && opt.only_join != j) continue;
                         const std::vector<uint8_t>& sc = keep[j][e][el];
                         if (sc.size() != grid.size()) continue;  // source member had no polygon (reported above)
-                        Member m{wcfg, ocfg, bend, j, e};
+                        Member m{wcfg, ocfg, bend, j, e, opt.bd};
                         R->count("path_region_comparisons");
                         int bad_in = 0, bad_out = 0;
                         V f_in{0, 0}, f_out{0, 0};
@@ -884,6 +1034,43 @@ static void run_family(const std::string& name, const std::string& desc, const s
     std::string bl;
     for (int b : bends) bl += std::string(bl.empty() ? "" : ", ") + BEND_NAME[b];
     R->bound("outline." + name, desc + fmt("; %zu spines x 3 widths x 4 offset configurations x bends {%s} x 4 joins x 5 ends; sample spacing %.3g%s", spines.size(), bl.c_str(), opt.h, opt.do_c ? "; PATH records (gds+oas) for joins natural/miter" : ""), ok, (int64_t)spines.size() * 240 * (int64_t)bends.size());
+}
+
+// ----------------------------------------------------------------------- construction through FlexPath::commands
+// For every spine: (1) complete command list, widths {1,2}; (2) lists stopping early after k = 1..n-1 valid instructions
+// (unknown letter / last argument missing) followed by immediate outline + PATH export of the k+1 points that exist;
+// (3) the same lists with k = 1..n-2 followed by segment(remaining points, width 2 -> 1): the taper must stay inside
+// that last call.  Offsets {0, two elements +1.5/-1.5}, no bends, all joins and ends.
+static void run_cmd_family(const std::string& name, const std::string& desc, const std::vector<std::vector<V>>& spines, const GroupOpts& base) {
+    if (getenv("C07_FAM") && name.find(getenv("C07_FAM")) == std::string::npos) return;  // development aid
+    auto body = [&](int64_t i) {
+        const std::vector<V>& sp = spines[i];
+        const int n = (int)sp.size();
+        for (int oc : {0, 3}) {
+            GroupOpts o = base;
+            o.bd.mode = 1;
+            for (int w : {0, 1}) run_group(sp, w, oc, 0, o);
+            for (int variant = 0; variant < 2; variant++) {
+                for (int k = 1; k <= n - 1; k++) {
+                    o.bd.mode = 2; o.bd.k = k; o.bd.variant = variant;
+                    std::vector<V> prefix(sp.begin(), sp.begin() + k + 1);
+                    run_group(prefix, 1, oc, 0, o);
+                }
+                for (int k = 1; k <= n - 2; k++) {
+                    o.bd.mode = 3; o.bd.k = k; o.bd.variant = variant;
+                    run_group(sp, 2, oc, 0, o);
+                }
+            }
+        }
+    };
+    auto describe = [&](int64_t i) { return jobj({{"spine", jpts(spines[i])}, {"then", jstr("all command-list constructions of this spine")}}); };
+    auto replay_of = [&](int64_t i) { return fmt("sub=outline pts=%s cm=1 w=1 oc=3 bend=0%s", pts_str(spines[i]).c_str(), base.do_c ? " c=1" : ""); };
+    bool ok = parallel_for(*R, (int64_t)spines.size(), body, describe, replay_of, PFOptions{60, "outline", true});
+    if (!spines.empty()) {
+        Member m{2, 3, 0, c07::J_MITER, 2, Build{3, 1, 1}};
+        R->sample("outline", member_json(spines[spines.size() / 2], m));
+    }
+    R->bound("outline." + name, desc + "; per spine: complete command list (widths 1, 2), lists stopping after k valid instructions (unknown letter / missing last argument) + immediate outline and PATH export, the same + segment(rest, width 2->1); offsets {0, two elements}; all joins and ends" + (base.do_c ? "; PATH records (gds+oas)" : ""), ok, (int64_t)spines.size());
 }
 
 // ----------------------------------------------------------------------- long simple paths (multi-record XY lists)
@@ -1081,6 +1268,7 @@ int main(int argc, char** argv) {
             if (!run.rarg("join").empty()) opt.only_join = atoi(run.rarg("join").c_str());
             if (!run.rarg("end").empty()) opt.only_end = atoi(run.rarg("end").c_str());
             if (!run.rarg("h").empty()) opt.h = atof(run.rarg("h").c_str());
+            if (!run.rarg("cm").empty()) { opt.bd.mode = atoi(run.rarg("cm").c_str()); opt.bd.k = atoi(run.rarg("ck").c_str()); opt.bd.variant = atoi(run.rarg("cv").c_str()); }
             if (sp.size() >= 2) {
                 if (!run.rarg("w").empty()) run_group(sp, atoi(run.rarg("w").c_str()), atoi(run.rarg("oc").c_str()), atoi(run.rarg("bend").c_str()), opt);
                 else for (int w = 0; w < 3; w++) for (int oc = 0; oc < 4; oc++) for (int b : {0, 1, 2, 4}) run_group(sp, w, oc, b, opt);
@@ -1117,12 +1305,20 @@ int main(int argc, char** argv) {
         // two consecutive bends competing for the shared segment (each fits alone, not both): r=3 on 4-point spines
         // with steps of length 4 and 4*sqrt(2) (a = b = 3 on a 90-degree U/Z/S of length 4, 3 + 1.24 on 90+45 degrees, ...)
         enum_spines(4, vec_set(3), s4a);
+        run_cmd_family("cmd.3pt.dir16", "3-point polylines with steps from the 16 shortest lattice vectors" + tail, s3a, opt);
         run_family("4pt.dir8.r3", "4-point polylines whose three steps are taken from the 8 shortest lattice vectors (axis and diagonal unit steps)" + tail, s4a, opt, 120, {4});
     } else {
         enum_spines(3, vec_set(0), s3);
         run_family("3pt", "every 3-point polyline" + tail, s3, opt, 60);
         enum_spines(4, vec_set(1), s4a);
         run_family("4pt.dir16", "4-point polylines whose three steps are taken from the 16 shortest lattice vectors (8 directions and the arctan(1/2) family)" + tail, s4a, opt, 120, {0, 1, 2, 4});
+        {
+            std::vector<std::vector<V>> c3, c4;
+            enum_spines(3, vec_set(1), c3);
+            enum_spines(4, vec_set(3), c4);
+            run_cmd_family("cmd.3pt.dir16", "3-point polylines with steps from the 16 shortest lattice vectors" + tail, c3, opt);
+            run_cmd_family("cmd.4pt.dir8", "4-point polylines with steps from the 8 shortest lattice vectors" + tail, c4, opt);
+        }
         run_probe(s4a);
         enum_spines(4, vec_set(2), s4b, true);
         run_family("4pt.dir24", "4-point polylines with steps from the 24 short lattice vectors and at least one doubled axis/diagonal step (the rest of the 24-vector family)" + tail, s4b, opt, 120);
